@@ -10,7 +10,9 @@ from cxxheaderparser.lexer import LexerTokenStream
 
 TECHNIQUE = 'Lean 4: stream theorems (no layout token is handed out, any layout prefix is skipped) on the regenerated discard sets; whole-parse layout independence decided by correspondence of the parser model and a relayout oracle on the implementation (not a theorem)'
 LEAN_TARGET = "CxxModel.Props.C09"
-THEOREMS = ["Cxx.C09_discard_sets_are_layout", "Cxx.C09_popSignificant_skips_layout", "Cxx.C09_popSignificant_not_layout", "Cxx.C09_next_ignores_layout_prefix", "Cxx.discard_sets_are_layout"]
+THEOREMS = ["Cxx.C09_discard_sets_are_layout", "Cxx.C09_popSignificant_skips_layout", "Cxx.C09_popSignificant_not_layout", "Cxx.C09_next_ignores_layout_prefix",
+            "Cxx.C09_layout_sim", "Cxx.C09_parser_layout", "Cxx.C09_same_callbacks", "Cxx.C09_prelexed_locations_irrelevant", "Cxx.rbnd_bisim", "Cxx.interp_flag",
+            "Cxx.discard_sets_are_layout"]
 ANCHORS = ["lexer.py:", "parser.py:CxxParser._process_pragma_directive", "parser.py:CxxParser._process_include_directive", "lex.py:Lexer.token",
            "parser.py:CxxParser.parse", "parser.py:CxxParser._parse_template", "parser.py:CxxParser._parse_template_decl", "parser.py:CxxParser._parse_cv_ptr_or_fn"]
 RULE = ("every token gap (quick: a sample of gaps) of every valid input without documentation comments (test corpus, generated "
@@ -19,7 +21,8 @@ RULE = ("every token gap (quick: a sample of gaps) of every valid input without 
         "non-trivial = gap between two tokens of one declaration")
 CARRIED_BY = {
     "the token-stream operations never hand out layout tokens and skip any layout prefix": "theorems C09_popSignificant_skips_layout, C09_next_ignores_layout_prefix, C09_discard_sets_are_layout (regenerated sets)",
-    "the parser cannot observe layout (any client, full generic theorem)": "NOT yet a theorem (abstraction theorem, DESIGN §6 C09); correspondence `parse[relayout]` + oracle `relayout` on the implementation",
+    "the parser observes the text only through the stream operations: stream states no operation can tell apart give the same callbacks, payloads, result and parser state for every client program": "theorem C09_layout_sim (generic, bisimulation argument) + C09_parser_layout / C09_same_callbacks (instance at the parser model); concrete bisimulation: C09_prelexed_locations_irrelevant",
+    "two texts with the same significant tokens give stream states that no operation can tell apart (the lexer side)": "NOT a theorem: correspondence `parse[relayout]` + oracle `relayout` on the implementation",
 }
 ASSUMPTIONS = ["inputs with documentation comments are C11's (a blank line legitimately detaches a doc block)",
                "known findings: comment/CR before the end of a #pragma/#include line; a line that is only a backslash"]
